@@ -8,6 +8,7 @@
 package batch
 
 import (
+	"cmp"
 	"context"
 	"errors"
 	"fmt"
@@ -163,8 +164,11 @@ func Authorize(ctx context.Context, policies cedar.PolicyIterator, entities type
 	for k, v := range request.Variables {
 		be.Variables = append(be.Variables, variableItem{Key: k, Values: v})
 	}
+	// Bind the variables with the fewest values first. Variables with equally many values are bound in the order of
+	// their names and not in the (random) order in which the map yielded them, so that the same request always gives
+	// the same results.
 	slices.SortFunc(be.Variables, func(a, b variableItem) int {
-		return len(a.Values) - len(b.Values)
+		return cmp.Or(cmp.Compare(len(a.Values), len(b.Values)), cmp.Compare(a.Key, b.Key))
 	})
 
 	// resolve ignores if no variables exist
